@@ -72,6 +72,7 @@ func main() {
 		os.Exit(2)
 	}
 	r := coqgen.Rand()
+	coqgen.Watchdog(8 * time.Minute)
 	thorough := coqgen.Thorough()
 	w := coqgen.Create(os.Args[1])
 	defer w.Close()
@@ -230,6 +231,9 @@ func main() {
 	sends := make([]sendCase, nsend)
 	for i := range sends {
 		sends[i].count = r.Intn(5)
+		if i < 6 {
+			sends[i].count = 1 + i%2 // the default value given explicitly, and 2
+		}
 		n := 1 + r.Intn(40)
 		if i%4 == 3 {
 			n = 250 + r.Intn(10)
@@ -260,7 +264,15 @@ func main() {
 				sc.err = e.Error()
 				return
 			}
-			args := []string{"--push", "--connect", a, "--count", fmt.Sprint(sc.count)}
+			args := []string{"--push", "--connect", a}
+			switch i % 3 { // --count with and without a send interval, in both orders
+			case 0:
+				args = append(args, "--count", fmt.Sprint(sc.count))
+			case 1:
+				args = append(args, "--count", fmt.Sprint(sc.count), "--send-interval", "10ms")
+			default:
+				args = append(args, "--send-interval", "10ms", "--count", fmt.Sprint(sc.count))
+			}
 			if i%2 == 0 {
 				args = append(args, "--data", string(sc.data))
 			} else {
@@ -270,15 +282,20 @@ func main() {
 			}
 			done := make(chan error, 1)
 			go func() { done <- runApp(nil, args...) }()
-			for {
+			for len(sc.got) <= sc.count+3 { // a few more than asked for are enough to show it
 				m, e := sock.Recv()
 				if e != nil {
 					break
 				}
 				sc.got = append(sc.got, m)
 			}
-			if e := <-done; e != nil {
-				sc.err = "run: " + e.Error()
+			select {
+			case e := <-done:
+				if e != nil {
+					sc.err = "run: " + e.Error()
+				}
+			case <-time.After(3 * time.Second):
+				sc.err = "macat did not return (still sending?)"
 			}
 		}(i)
 	}
